@@ -1,6 +1,6 @@
 (* C20: CLI: flag beats config file beats default. *)
 From Coq Require Import String Ascii List Bool.
-From TT Require Import Base.Str Cli.Precedence Proofs.C20_proofs.
+From TT Require Import Base.Str Cli.Precedence Proofs.C20_proofs Proofs.C20_nested.
 Import ListNotations.
 Local Open Scope string_scope.
 
@@ -43,3 +43,13 @@ Definition start_rule_holds : bool :=
 Theorem C20_precedence_start_table : start_rule_holds = true.
 Proof. vm_compute. reflexivity. Qed.
 Print Assumptions C20_precedence_start_table.
+
+(* ... and as a theorem for every section, flag list and default: an option that lives at tb.k in
+   the config section (flag name k) follows the rule whenever the section has no top-level key
+   named like the flag and no flag is named like the table - true of every command (the table is
+   `start`, the flags are latitude, longitude, bearing, distance). *)
+Theorem C20_precedence_nested :
+  forall tb k section g default, t_get section k = None -> no_flag_named g tb ->
+    effective (mkOpt [tb; k] k) section g default = spec_effective (mkOpt [tb; k] k) section g default.
+Proof. exact precedence_nested. Qed.
+Print Assumptions C20_precedence_nested.
